@@ -215,16 +215,9 @@ class _Child:
 
 
 def make_processes(encoders):
-    from exabgp.reactor.api.processes import Processes
-
-    procs = Processes()
-    procs._async_mode = True
-    for name, enc in encoders.items():
-        procs._process[name] = _Child()
-        procs._encoder[name] = enc
-        procs._ack[name] = True
-        procs._ackjson[name] = False
-    return procs
+    """the three encoders installed the production way: API v4 gives the V4 JSON / text encoders, API v6 the JSON one"""
+    want = {'json6': ('json', 6), 'json4': ('json', 4), 'text4': ('text', 4)}
+    return exa.make_processes([(name, want[name][0], want[name][1]) for name in encoders])
 
 
 def update_worker(args):
@@ -277,7 +270,7 @@ def update_worker(args):
                 continue
             res['events'] += 1
             try:
-                procs._write_queue.clear()
+                exa.drop_pending_writes(procs)
                 procs.write(name, text, n)
             except Exception as e:  # noqa: BLE001
                 sig = f'write-exception:{name}:{type(e).__name__}'
